@@ -49,6 +49,7 @@ def has_prefix_pair(vals):
 
 def make_case(r):
     vals = value_set(r)
+    r.shuffle(vals)          # the order in which the grammar lists the values must not matter
     pre = r.choice(PRES)
     shape = r.choice(['plain', 'plain', 'def', 'suffix', 'two'])
     suf = ''
@@ -72,6 +73,7 @@ def make_case(r):
         words_spec = [(pre, vals, suf)]
     else:
         vals2 = value_set(r)
+        r.shuffle(vals2)
         pre2 = r.choice([p for p in PRES if p != pre])
         e = seq(('word', (lit(pre), V)), ('word', (lit(pre2), alt(*[lit(v) for v in vals2]))), lit('next'))
         words_spec = [(pre, vals, ''), (pre2, vals2, '')]
@@ -96,7 +98,7 @@ def queries_for(r, words_spec):
                 out.append((chain + [w, ''], 'value-recognised', {pre2} if pre2 else {x for x in vals2},
                             {'value': v, 'shorter': shorter}))
         # non-values
-        for bad in ['zz', vals[0] + 'q', (vals[-1] + 'a' + 'b')]:
+        for bad in ['zz', min(vals) + 'q', (max(vals) + 'a' + 'b')]:
             if bad not in vals and not any(x.startswith(bad) for x in vals):
                 out.append((chain + [pre + bad + suf, ''], 'non-value', set(), {'value': bad}))
         # prefixes as cursor word
